@@ -88,6 +88,12 @@ pub struct KnownFinding {
     pub description: String,
     #[serde(default)]
     pub commit: Option<String>,
+    /// saved input reproducing the finding (path relative to /verif)
+    #[serde(default)]
+    pub replay: Option<String>,
+    /// how many times the (schedule dependent) replay is attempted
+    #[serde(default)]
+    pub replay_attempts: Option<u32>,
 }
 
 pub fn load_known_findings() -> Vec<KnownFinding> {
@@ -180,6 +186,42 @@ impl Check {
 
     pub fn extra(&mut self, k: &str, v: Value) {
         self.extra.insert(k.to_string(), v);
+    }
+
+    /// Known (unfixed) findings listed for this property.
+    pub fn known_entries(&self) -> Vec<KnownFinding> {
+        self.known.iter().filter(|k| k.property == self.id && k.status == "known").cloned().collect()
+    }
+
+    /// Findings recorded as fixed for this property (their replays are regression inputs).
+    pub fn fixed_entries(&self) -> Vec<KnownFinding> {
+        self.known.iter().filter(|k| k.property == self.id && k.status == "fixed").cloned().collect()
+    }
+
+    /// Record the result of replaying saved inputs (outside the generated sections).
+    pub fn record_replay(&mut self, name: &str, outcome: Outcome, path: &str) {
+        let st = self.sections.iter_mut().find(|s| s.name == "saved-inputs");
+        let st = match st {
+            Some(s) => s,
+            None => {
+                self.sections.push(SectionStats { name: "saved-inputs".into(), evaluations: 0, nontrivial_hashes: HashSet::new(), labels: BTreeMap::new(), samples: vec![], known_hits: BTreeMap::new() });
+                self.sections.last_mut().unwrap()
+            }
+        };
+        st.evaluations += 1;
+        match outcome {
+            Outcome::Pass { .. } => {
+                *st.labels.entry(format!("pass:{}", name)).or_default() += 1;
+            }
+            Outcome::Known { signature, .. } => {
+                *st.known_hits.entry(signature).or_default() += 1;
+            }
+            Outcome::Fail { msg } => {
+                println!("saved input {} fails: {}", path, msg);
+                self.violations.push(("saved-inputs".into(), path.to_string()));
+            }
+            Outcome::Inconclusive { msg } => self.inconclusive.push(msg),
+        }
     }
 
     pub fn is_known(&self, signature: &str) -> bool {
